@@ -170,6 +170,11 @@ class CPCCARotator(CPCCA):
         Qx = Qx.rename({feature_name[0]: common_feature_dim})
         Qy = Qy.rename({feature_name[1]: common_feature_dim})
 
+        # Non-index coordinates that only one of the fields carries cannot be concatenated
+        common_coords = set(Qx.coords) & set(Qy.coords)
+        Qx = Qx.drop_vars([c for c in Qx.coords if c not in common_coords])
+        Qy = Qy.drop_vars([c for c in Qy.coords if c not in common_coords])
+
         loadings = xr.concat([Qx, Qy], dim=common_feature_dim) * scaling
 
         # Rotate loadings
